@@ -231,8 +231,21 @@ fn prop_invalid(t: &mut Tape, st: &mut Stats) -> Result<(), Failure> {
     let cfg = multibyte_cfg(t);
     let r = gen_doc(t, &cfg);
     let mut text = r.text.clone();
-    let kind = t.weighted(&[4, 3, 3, 2]);
+    let kind = t.weighted(&[4, 3, 3, 2, 1]);
     match kind {
+        4 => {
+            // refused for nesting beyond the limit (arrays, inline tables, dotted keys, header
+            // paths and their combinations), after the generated document
+            if !text.is_empty() && !text.ends_with('\n') {
+                text.push('\n');
+            }
+            let mut sp = super::c05::gen_spec(t);
+            sp.header = sp.header.min(150);
+            sp.key = sp.key.min(150);
+            sp.levels.truncate(200);
+            text.push_str(&sp.text().replace("k.", "zz9.").replacen("k =", "zz9 =", 1));
+            st.class("over-limit-nesting");
+        }
         0 => {
             // labelled fault, optionally with multi-byte characters before it on the same line
             if !text.is_empty() && !text.ends_with('\n') {
@@ -444,6 +457,12 @@ fn prop_typed(t: &mut Tape, st: &mut Stats) -> Result<(), Failure> {
     let mut cfg = multibyte_cfg(t);
     cfg.allow_bom = false;
     let r = gen_doc(t, &cfg);
+    typed_probe(&r, t, st)
+}
+
+/// ask for the wrong type at a chosen path of a generated document (no BOM): the error is located
+/// at the offending item (also used by C14: error locations delivered through serde)
+pub fn typed_probe(r: &crate::gen::Rendered, t: &mut Tape, st: &mut Stats) -> Result<(), Failure> {
     let mut paths = vec![];
     all_paths(&r.expected, &vec![], &mut paths);
     if paths.is_empty() {
@@ -555,7 +574,7 @@ fn prop_typed(t: &mut Tape, st: &mut Stats) -> Result<(), Failure> {
 
 pub fn run(args: Args) -> ! {
     let mut rep = Report::new("C15", args.tier, args.seed);
-    rep.rule = "rejected inputs: labelled faults (optionally behind multi-byte characters), stray multi-byte characters, truncations, byte/line mutants of generated documents; exhaustive truncation of every fixture at every byte; for each error of DocumentMut, ImDocument, toml::from_str and toml_edit::de::from_str: non-empty message, span inside the document on char boundaries, rendering does not panic, `line L, column C` equals an independent character-based computation from span.start, echoed line is that line. Typed errors: a seed type walks to a chosen path of a valid document and asks for the wrong type there, each node on the way asked for plainly or through deserialize_option / deserialize_newtype_struct / deserialize_struct as chosen by the tape; with text the span must equal the offending item's source range (by construction), without text the rendering ends with the key path. non-trivial = error position not 0 and (multi-byte character before it on the line or at end of input); distinct by text".into();
+    rep.rule = "rejected inputs: labelled faults (optionally behind multi-byte characters), nesting beyond the recursion limit in every combination, stray multi-byte characters, truncations, byte/line mutants of generated documents; exhaustive truncation of every fixture at every byte; for each error of DocumentMut, ImDocument, toml::from_str and toml_edit::de::from_str: non-empty message, span inside the document on char boundaries, rendering does not panic, `line L, column C` equals an independent character-based computation from span.start, echoed line is that line. Typed errors: a seed type walks to a chosen path of a valid document and asks for the wrong type there, each node on the way asked for plainly or through deserialize_option / deserialize_newtype_struct / deserialize_struct as chosen by the tape; with text the span must equal the offending item's source range (by construction), without text the rendering ends with the key path. non-trivial = error position not 0 and (multi-byte character before it on the line or at end of input); distinct by text".into();
     rep.assumptions = vec!["the expected line/column follows the wording of the property (characters, LF-separated lines, final LF part of the last line)".into()];
     KNOWN_F3.store(rep.is_known("F3"), std::sync::atomic::Ordering::Relaxed);
     KNOWN_F14.store(rep.is_known("F14"), std::sync::atomic::Ordering::Relaxed);
@@ -610,7 +629,7 @@ pub fn run(args: Args) -> ! {
     finish_run(&mut rep, "invalid", run);
     let run = run_tape("C15.typed", &prop_typed, 2000, args.tier.pick(200_000, 3_000_000), args.seed, w);
     finish_run(&mut rep, "typed", run);
-    for c in ["eof-with-newline", "eof-without-newline", "at-multibyte", "fault-line", "stray-multibyte", "truncation", "mutant", "value-or-key-error", "typed.string", "typed.integer", "typed.array", "typed.table", "typed.array-of-tables", "typed.datetime", "typed.via-option", "typed.via-newtype", "typed.via-struct"] {
+    for c in ["eof-with-newline", "eof-without-newline", "at-multibyte", "fault-line", "stray-multibyte", "truncation", "mutant", "value-or-key-error", "over-limit-nesting", "typed.string", "typed.integer", "typed.array", "typed.table", "typed.array-of-tables", "typed.datetime", "typed.via-option", "typed.via-newtype", "typed.via-struct"] {
         rep.require_class(c);
     }
     rep.finish()
